@@ -99,7 +99,9 @@ def run(ctx):
             trees.append({("l",): t1, ("a", "l"): t2})
     if q:
         trees = trees[:1] + rng.sample(trees[1:], 45)
-    paths = guest_paths(3 if q else 4)
+    paths = guest_paths(3)
+    long_paths = [] if q else guest_paths(4)[len(paths):]
+    deep = set() if q else set(id(t) for t in rng.sample(trees[1:], 40))          # thorough: 40 hosts also get every path of 4 names
     extra = ["/a//../..//l/f", "a/./l/../../..", "/l/", "l/.", "/a/l/secret", "/l/secret", "/../file_sb2/secret", "../secret", "//etc/passwd",
              "/etc/../../../etc/passwd", "/dev/../etc/passwd", "/dev/./../l/secret", "/dev/shm/../../l", "/dev/urandom", "/dev",
              "$T/out/pt", "$T/out/pt/../secret", "$T/out/secret", "/l/../../out/secret"]
@@ -133,7 +135,7 @@ def run(ctx):
                     return
                 qs.append(dict(host.query(ret, nofollow, real), textonly=api.endswith("_to_sbpath")))
                 qmeta.append((api, gp, ret if isinstance(ret, str) else ret.decode("latin-1")))
-            for gp in paths + [e.replace("$T", T) for e in extra]:
+            for gp in paths + (long_paths if id(links) in deep else []) + [e.replace("$T", T) for e in extra]:
                 call("resolve_path", gp, lambda: fs.resolve_path(gp))
                 call("resolve_path(follow_link=False)", gp, lambda: fs.resolve_path(gp, follow_link=False), nofollow=True)
                 if len(gp) % 3 == 0:
@@ -199,7 +201,7 @@ def run(ctx):
                         "an outside directory; passthrough: a prefix regexp (/dev/) and one exact path",
                         "SandboxFS.tla's walk is itself checked against the host's realpath on every returned path inside the scratch directory"]
     return ("for each host tree (exhaustive over the link targets listed, quick: a sample of 45) and each guest path (all sequences up to "
-            "3 - thorough 4 - names over {a, l, f, .., .}, absolute and relative, plus hand-written ones; Windows paths for "
+            "3 - thorough: 4 on 40 of the hosts - names over {a, l, f, .., .}, absolute and relative, plus hand-written ones; Windows paths for "
             "windows_to_sbpath): the host path returned by FileSystem.resolve_path (str, bytes, follow_link=False), unix_to_sbpath, "
             "windows_to_sbpath and the file really opened by FileSystem.open_ is walked by TLC over the model of the host "
             "(SandboxFS.tla) and must land inside the base directory or on a passthrough entry")
